@@ -55,6 +55,9 @@ def cases(tier, seed):
         for n, with_noise in itertools.product([2, 4], [False, True]):
             yield {"kind": "list", "n": n, "call_noise": with_noise, "members": rnd.choice([["fixed", "fixed"], ["fixed+learn", "fixed"], ["fixed", "fixed+learn", "fixed"]]), "seed": rnd.randrange(10**6)}
         yield {"kind": "list", "n": 3, "call_noise": False, "members": ["gauss", "fixed", "gauss"], "seed": rnd.randrange(10**6)}
+        for members in (["fixed", "fixed"], ["fixed", "fixed+learn", "fixed"]):
+            for n_ in (2, 3, 4):  # (incl. as many points as members)
+                yield {"kind": "list", "n": n_, "call_noise": "stacked", "members": members, "seed": rnd.randrange(10**6)}
         for members in (["fixed", "fixed", "fixed"], ["fixed", "fixed+learn", "fixed"]):
             for none_at in ([1], [0], [2], [0, 2]):
                 yield {"kind": "list", "n": 3, "call_noise": True, "none_at": none_at, "members": members, "seed": rnd.randrange(10**6)}
@@ -359,6 +362,9 @@ def _list(case, ctx, g):
     passed = [None if i in none_at else c for i, c in enumerate(calls)]
     calls = [None if i in none_at else c for i, c in enumerate(calls)]
     kw = {"noise": passed} if case["call_noise"] else {}
+    if case["call_noise"] == "stacked":
+        # the per-member noises handed over as ONE stacked tensor (members x points): iterated row by row like a list
+        kw = {"noise": torch.stack(passed)}
     try:
         outs = ll(*ds, **kw)
     except Exception as e:
